@@ -719,7 +719,7 @@ Definition D := Eval vm_compute in firstn 3 (diffs String.eqb (fun x => [[fst x]
     "mg.runtime": {
         "checks": ["C11", "C08"],
         "file": "mg/runtime.go",
-        "names": "Verbose!?os.Getenv=string>string,Debug,GoCmd,HashFast,IgnoreDefault,EnableColor,CacheDir!?filepath.Join=...string>string!?os.TempDir=>string!runtime_GOOS",
+        "names": "Verbose!?os.Getenv=string>string,Debug!?os.Getenv=string>string,GoCmd!?os.Getenv=string>string,HashFast!?os.Getenv=string>string,IgnoreDefault!?os.Getenv=string>string,EnableColor!?os.Getenv=string>string,CacheDir!?os.Getenv=string>string!?filepath.Join=...string>string!?os.TempDir=>string!runtime_GOOS",
         "src": ["Verbose", "Debug", "GoCmd", "HashFast", "IgnoreDefault", "EnableColor", "CacheDir"],
         "model": "Model/Flags.mg_verbose, mg_debug, mg_gocmd, mg_bool (C11; os.Getenv is a parameter = Flags.getenv of the environment; strconv.ParseBool = FlagPkg.parse_bool) and Model/Paths.cache_dir_env (C08; filepath.Join, os.TempDir, runtime.GOOS are parameters)",
         "requires": "From Mage Require Import Proof.GoLib_models.\nFrom Mage Require Model.Flags Model.Paths.\n",
@@ -783,46 +783,38 @@ Definition D := Eval vm_compute in firstn 3 (
         "requires": "From Mage Require Import Proof.GoLib_models.\nFrom Mage Require Model.Classify.\n",
         "defs": "Import Classify.\n",
         "theorems": ["x_hasContextParam_Classify", "x_hasVoidReturn_Classify", "x_hasErrorReturn_Classify"],
-        "agree": """Theorem x_hasContextParam_Classify : forall ft,
+        "agree": """Ltac go_sig := cbn; try lia; try reflexivity; try (split; [reflexivity|discriminate]); try congruence.
+Theorem x_hasContextParam_Classify : forall ft,
   agrees (x_hasContextParam ft) (Classify.hasContextParam (map pgroup_of (fieldlist_List (ft_params ft)))).
 Proof.
   intros [tp [[|f r]|] rs]; cbn [ft_params fieldlist_List map]; try (cbn; reflexivity).
   unfold x_hasContextParam, Classify.hasContextParam. cbn [ft_params]. cbv zeta.
-  rewrite ?NumFields_params. cbn [map].
-  assert (N : 1 <= num_fields (pgroup_of f :: map pgroup_of r)) by (rewrite num_fields_cons; lia).
-  repeat match goal with |- context [Z.ltb (Z.of_nat (num_fields ?l)) 1] => destruct (Z.ltb_spec (Z.of_nat (num_fields l)) 1); [lia|] end.
+  rewrite ?NumFields_params. cbn [map fieldlist_List]. rewrite ?index_0.
+  pose proof (num_fields_cons (pgroup_of f) (map pgroup_of r)) as N.
   destruct (Nat.ltb_spec (num_fields (pgroup_of f :: map pgroup_of r)) 1); [lia|].
-  cbn [fieldlist_List]. change (index_ ast_field_zero (f :: r) 0) with f.
-  destruct f as [names ty]. cbn [fld_type fld_names pgroup_of pty_ pnames].
-  destruct ty as [n|x s|tag]; cbn [ast_as_Selector pty_of negb fst snd].
-  - go_cases; cbn; reflexivity.
-  - destruct x as [p|x' s'|tag]; cbn [ast_as_Ident negb pty_of]; try (cbn; reflexivity).
-    unfold len_. destruct (String.eqb_spec p "context"), (String.eqb_spec s "Context"); subst; cbn [negb andb String.eqb];
-      try (go_cases; cbn; try reflexivity; congruence).
-    destruct (Z.ltb_spec 1 (Z.of_nat (length names))), (Nat.ltb_spec 1 (length names)); try lia; cbn; auto. split; [reflexivity|discriminate].
-  - cbn. reflexivity.
+  destruct f as [names ty]. cbn [fld_type fld_names pgroup_of pty_ pnames] in *.
+  destruct ty as [n|[p|x' s'|tag'] s|tag]; cbn [ast_as_Selector ast_as_Ident pty_of negb fst snd]; unfold len_ in *;
+    destruct (Nat.ltb_spec 1 (length names)); go_cases; go_sig.
 Qed.
 Theorem x_hasVoidReturn_Classify : forall sp ft,
   x_hasVoidReturn ft = Nat.eqb (num_fields_r (map (rgroup_of sp) (fieldlist_List (ft_results ft)))) 0.
 Proof.
   intros sp [tp ps [l|]]; unfold x_hasVoidReturn; cbv zeta; cbn [ft_results fieldlist_List map]; [|reflexivity].
   rewrite ?(NumFields_results sp).
-  destruct (Z.eqb_spec (Z.of_nat (num_fields_r (map (rgroup_of sp) l))) 0), (Nat.eqb_spec (num_fields_r (map (rgroup_of sp) l)) 0); try reflexivity; lia.
+  destruct (Nat.eqb_spec (num_fields_r (map (rgroup_of sp) l)) 0); go_cases; go_sig.
 Qed.
 Theorem x_hasErrorReturn_Classify : forall sp ft,
   agrees (x_hasErrorReturn sp ft) (Classify.hasErrorReturn (map (rgroup_of sp) (fieldlist_List (ft_results ft)))).
 Proof.
   intros sp [tp ps [[|f r]|]]; cbn [ft_results fieldlist_List map]; try (cbn; reflexivity).
   unfold x_hasErrorReturn, Classify.hasErrorReturn. cbn [ft_results]. cbv zeta.
-  rewrite ?(NumFields_results sp). cbn [map fieldlist_List]. change (index_ ast_field_zero (f :: r) 0) with f.
-  set (n := num_fields_r (rgroup_of sp f :: map (rgroup_of sp) r)).
-  assert (N : 1 <= n) by (unfold n; rewrite num_fields_r_cons; lia).
-  repeat match goal with |- context [Z.eqb (Z.of_nat n) 0] => destruct (Z.eqb_spec (Z.of_nat n) 0); [lia|] end.
-  destruct (Nat.eqb_spec n 0); [lia|].
-  destruct (Z.ltb_spec 1 (Z.of_nat n)), (Nat.ltb_spec 1 n); try lia; [cbn; split; [reflexivity|discriminate]|].
-  cbn [rgroup_of rnames rkind_]. unfold len_.
-  destruct (Z.ltb_spec 1 (Z.of_nat (length (fld_names f)))), (Nat.ltb_spec 1 (length (fld_names f))); try lia; [cbn; split; [reflexivity|discriminate]|].
-  destruct (String.eqb (sp (fld_type f)) "error"); cbn; [reflexivity|split; [reflexivity|discriminate]].
+  rewrite ?(NumFields_results sp). cbn [map fieldlist_List]. rewrite ?index_0.
+  pose proof (num_fields_r_cons (rgroup_of sp f) (map (rgroup_of sp) r)) as N.
+  set (n := num_fields_r (rgroup_of sp f :: map (rgroup_of sp) r)) in *.
+  destruct (Nat.eqb_spec n 0); [lia|]. destruct (Nat.ltb_spec 1 n).
+  - go_cases; go_sig.
+  - cbn [rgroup_of rnames rkind_] in *. unfold len_ in *.
+    destruct (Nat.ltb_spec 1 (length (fld_names f))); destruct (String.eqb (sp (fld_type f)) "error") eqn:E; go_cases; go_sig.
 Qed.
 """,
         "search": """Definition sp (e : ast_expr) : string :=
@@ -849,6 +841,31 @@ Definition D3 := diffs Bool.eqb (fun l => [["hasVoidReturn"]; show_l l]) show_bo
 Definition D := Eval vm_compute in firstn 3 (D1 ++ D2 ++ D3)%list.
 """,
         "args": ["op", "fields (names type)"], "replay": None},
+
+    "importTag": {
+        "checks": ["C19"],
+        "file": "parse/parse.go", "names": "lit2string!?strconv.Unquote=string>string:error,getImportPathFromCommentGroup,getImportPath!?strconv.Unquote=string>string:error",
+        "src": ["getImportPathFromCommentGroup", "getImportPath", "lit2string"],
+        "model": "Model/ImportTag.from_group, get_import_path (C19: the `mage:import [alias]` comment grammar); *ast.CommentGroup = nil or the comment texts, *ast.ImportSpec = (Doc, Comment, Path literal), strconv.Unquote is a parameter, log output is not part of the value, strings.Fields / ToLower in their ASCII readings",
+        "requires": "From Mage Require Import Proof.GoLib_models.\nFrom Mage Require Model.ImportTag.\n",
+        "defs": 'Definition spec_of (imp : ast_importspec) (p : string) : ImportTag.impspec :=\n  {| ImportTag.is_doc := imp_doc imp; ImportTag.is_comment := imp_comment imp; ImportTag.is_path := p; ImportTag.is_raw := false |}.\n',
+        "theorems": ["x_fromCommentGroup_ImportTag", "x_getImportPath_ImportTag", "x_getImportPath_bad_literal"],
+        "agree": 'Theorem x_fromCommentGroup_ImportTag : forall g, x_getImportPathFromCommentGroup g = ImportTag.from_group g.\nProof.\n  intros [l|]; [|reflexivity]. unfold x_getImportPathFromCommentGroup, ImportTag.from_group, ImportTag.from_group_gen.\n  cbv zeta. cbn [commentgroup_is_nil commentgroup_List orb].\n  destruct l as [|c l]; [reflexivity|]. rewrite ?index_last by discriminate.\n  change (Z.to_nat 2) with 2%nat. rewrite ?sdrop2_drop2, ?ToLower_ImportTag, ?Fields_ImportTag.\n  set (vals := ImportTag.fields _). cbn [length Nat.eqb].\n  rewrite len_cons. pose proof (len_nonneg l).\n  destruct vals as [|v0 vs]; [go_cases; try reflexivity; lia|].\n  rewrite ?index_0, ?len_cons. pose proof (len_nonneg vs). unfold ImportTag.import_tag.\n  go_cases; try reflexivity; try lia; congruence.\nQed.\n\nTheorem x_getImportPath_ImportTag : forall unq imp p, unq (imp_path imp) = (p, None) ->\n  x_getImportPath unq imp = match ImportTag.get_import_path (spec_of imp p) with\n                            | Some (path, alias) => (path, alias, true)\n                            | None => ("", "", false)\n                            end.\nProof.\n  intros unq imp p H. unfold x_getImportPath, x_lit2string, ImportTag.get_import_path, ImportTag.get_import_path_gen, ImportTag.lit_ok_now, spec_of.\n  cbv zeta. rewrite !x_fromCommentGroup_ImportTag, ?H. cbn [ImportTag.is_doc ImportTag.is_comment ImportTag.is_path is_nil negb].\n  destruct (ImportTag.from_group (imp_doc imp)) as [|a [|b [|c l]]];\n    destruct (ImportTag.from_group (imp_comment imp)) as [|a\' [|b\' [|c\' l\']]];\n    try reflexivity;\n    try (unfold len_; cbn [length]; go_cases; try reflexivity; lia).\nQed.\nTheorem x_getImportPath_bad_literal : forall unq imp s e, unq (imp_path imp) = (s, Some e) ->\n  x_getImportPath unq imp = ("", "", false).\nProof.\n  intros unq imp s e H. unfold x_getImportPath, x_lit2string. cbv zeta. rewrite ?H. cbn [is_nil negb]. go_cases; reflexivity.\nQed.\n',
+        "search": """Definition texts := ["//mage:import"; "// mage:import"; "// MAGE:Import Alias"; "//mage:import a b"; "// x"; "//"; "/* mage:import */"; "//  mage:import  zz "; "// mage:imports"].
+Definition groups : list ast_commentgroup := (None :: Some [] :: map (fun s => Some [s]) texts ++ [Some ["// mage:import"; "// x"]; Some ["// x"; "// mage:import q"]])%list.
+Definition grid := pairs groups groups.
+Definition show_g (g : ast_commentgroup) : list string := match g with None => ["<nil>"] | Some l => ("group" :: l)%list end.
+Definition unq (v : string) : string * option string := if String.eqb v "bad" then ("", Some "invalid syntax") else (("unquoted " ++ v)%string, None).
+Definition show3 (r : string * string * bool) : list string := let '(p, a, ok) := r in [p; a; if ok then "true" else "false"].
+Definition D1 := diffs (list_eqb String.eqb) (fun g => [["getImportPathFromCommentGroup"]; show_g g; []]) (fun r => r)
+  x_getImportPathFromCommentGroup ImportTag.from_group groups.
+Definition D2 := diffs (list_eqb String.eqb) (fun x => [["getImportPath"]; show_g (fst x); show_g (snd x)]) (fun r => r)
+  (fun x => show3 (x_getImportPath unq {| imp_doc := fst x; imp_comment := snd x; imp_path := "lit" |}))
+  (fun x => match ImportTag.get_import_path (spec_of {| imp_doc := fst x; imp_comment := snd x; imp_path := "lit" |} "unquoted lit") with
+            | Some (p, a) => [p; a; "true"] | None => [""; ""; "false"] end) grid.
+Definition D := Eval vm_compute in firstn 3 (D1 ++ D2)%list.
+""",
+        "args": ["op", "Doc comment group", "trailing comment group"], "replay": None},
 }
 
 
